@@ -23,13 +23,14 @@ Definition opt_equiv (a b : option val) : bool :=
   | _, _ => false
   end.
 
-(* the frame on an error: every top-level key the model left as it was must be as it was in the
-   real destination too (StrvalsProofs.parse_frame is about exactly these keys) *)
-Definition frame_ok (dest d' : vmap) (after : val) : bool :=
+(* the frame on an error: every top-level key that is not one of the keys the pairs start with
+   (Strvals.heads — the keys StrvalsProofs.parse_frame leaves open) must be in the real
+   destination as it was *)
+Definition frame_ok (hs : list string) (dest : vmap) (after : val) : bool :=
   match after with
   | VMap a =>
-      forallb (fun k => if opt_equiv (mget k d') (mget k dest) then opt_equiv (mget k a) (mget k dest) else true)
-              (map fst dest ++ map fst d' ++ map fst a)%list
+      forallb (fun k => if existsb (String.eqb k) hs then true else opt_equiv (mget k a) (mget k dest))
+              (map fst dest ++ map fst a)%list
   | _ => false
   end.
 
@@ -72,6 +73,15 @@ Definition observed (c : case) : res :=
   | CFiles _ o | CMergeMaps _ _ o | CCoalesce _ _ _ o | CTables _ _ _ o | COpts _ o | CParse _ _ _ _ _ o => o
   end.
 
+Definition parse_cfg (fn : pfn) (files : list (string * string)) (jdec : list (nat * (val * nat))) : pcfg :=
+  match fn with
+  | PInto => mkCfg MTyped [] []
+  | PIntoString => mkCfg MString [] []
+  | PJson => mkCfg MJson [] jdec
+  | PLiteral => mkCfg MLiteral [] []
+  | PFile => mkCfg MFile files []
+  end.
+
 Definition parse_model (fn : pfn) (s : string) (dest : vmap) (files : list (string * string))
                        (jdec : list (nat * (val * nat))) : pres :=
   match fn with
@@ -87,7 +97,9 @@ Definition case_ok (c : case) : bool :=
   | CParse fn s dest files jdec obs =>
       match parse_model fn s dest files jdec, obs with
       | POk d, ROk v => val_equiv_b (VMap d) v
-      | PErr d', RErrD after => frame_ok dest d' after
+      | PErr d', RErrD after =>
+          frame_ok (heads (S (String.length s)) (parse_cfg fn files jdec) dest s) dest after
+          && frame_ok (heads (S (String.length s)) (parse_cfg fn files jdec) dest s) dest (VMap d')
       | _, _ => false
       end
   | _ => res_eqb (model c) (observed c)
